@@ -134,6 +134,12 @@ func (db *SingleBucketBackend) getBucketWithFilePrefixLocked(bucket string, pref
 		// Expected use of 'path'; see the "Path Handling" subheading in doc.go:
 		objectPath := path.Join(prefixPath, object)
 
+		// path.Join cleans the prefix path ('a//' becomes 'a'): an entry only
+		// matches if its key really starts with the prefix as given.
+		if prefixPath != "" && !strings.HasPrefix(objectPath, prefixPath+"/") {
+			continue
+		}
+
 		if prefixPart != "" && !strings.HasPrefix(object, prefixPart) {
 			continue
 		}
